@@ -9,13 +9,13 @@ E1NOTE = "Trusted: x/net/html tokenizer/ParseFragment as the observer; the harne
 def e1(ref, text, note=E1NOTE, tech="bounded-exhaustive enumeration of inputs x builder-assembled policies on the real implementation, independent oracle per execution"):
     return ("model_checking", tech, "E1", ref, text, note)
 CHECKS = {
- "C01": e1("DESIGN.md §4 C01", "Every fragment sequence (length<=3 over 93 fragments, <=4 over the 29-fragment core) and every byte string (<=5 over 22 bytes) is executed against 14 named policies and every <=2-subset of a 17-call builder alphabet; each output is re-tokenised and re-parsed in 8 flow contexts and every tag/comment/doctype found must be allowlisted. Exhaustive within those bounds; thorough deepens every bound by one."),
- "C02": e1("DESIGN.md §4 C02", "Every attribute list (<=2 on all of 638 generated policies crossing rule scope x value pattern x overlap x AllowNoAttrs x data attributes, one deeper on a fifth of them) over a 24-attribute alphabet on six element classes, start and self-closing; every surviving attribute must be justified by a rule of the spec view, a well-formed data-* name, governed style or a forced attribute; bare tags must be bare-allowed."),
- "C03": e1("DESIGN.md §4 C03", "Every URL string (<=3 fragments over a 46-fragment URL alphabet, <=4 bytes over 13) in each of the 17 element/attribute positions x scheme allowlist / relative / custom check / scheme regexp / rewriter variants; every surviving value is classified by a WHATWG-style scheme extractor that does not use net/url."),
+ "C01": e1("DESIGN.md §4 C01", "Every fragment sequence (length<=3 over the ~100-fragment alphabet F, <=4 over its 29-fragment core, <=3 over core + a 70-fragment exotic-syntax alphabet) and every byte string (<=5 over 22 bytes) is executed against 19 named policies and every <=2-subset of a 17-call builder alphabet (~48M executions); each output is re-tokenised and re-parsed in 8 flow contexts and every tag / comment / doctype found must be allowlisted. Exhaustive within those bounds; thorough deepens them (554M executions)."),
+ "C02": e1("DESIGN.md §4 C02", "Every attribute list (<=2 on all of ~820 generated policies crossing rule scope x value pattern x overlap x AllowNoAttrs (call- and builder-level) x data attributes, one deeper on a fifth of them) over a 28-attribute alphabet on six element classes, start and self-closing; every surviving attribute must be justified by a rule of the spec view, a well-formed data-* name, governed style or a forced attribute; bare tags must be bare-allowed."),
+ "C03": e1("DESIGN.md §4 C03", "Every URL string (<=3 fragments over a 46-fragment URL alphabet, <=4 bytes over 13, data: URIs <=4 over 24 fragments) in each of the 17 element/attribute positions, alone and as a duplicated attribute, x scheme allowlist / relative / custom check / scheme regexp / rewriter / globally-admitted-attribute variants; every surviving value is classified by a WHATWG-style scheme extractor that does not use net/url."),
  "C04": e1("DESIGN.md §4 C04", "Hostile sweep (206 elements x 249 attributes x 7 value classes, XSS alphabet sequences <=3) against StrictPolicy and UGCPolicy judged on the DOM in 8 containers against the harness's transcription of the documented UGC vocabulary plus an independent blacklist; converse: ~61k generated conforming documents must come back unchanged apart from rel=nofollow."),
  "C05": e1("DESIGN.md §4 C05", "Every sequence <=3 over 47 script/style forms with uniquely numbered text markers (<=4 over a 20-fragment core) and byte strings glued to the literal names, against 10 policies that try to allow script/style without AllowUnsafe; no script/style tag or element in the output and no marker the tree builder places inside script/style of the input survives."),
  "C06": e1("DESIGN.md §4 C06", "Every sequence <=3 over a 61-fragment text-heavy alphabet and byte strings <=5, against every policy of the family in the property's class with and without space insertion; exact two-pointer alignment of re-tokenised input and output (characters unchanged, tags kept or replaced by nothing / one space, no new tags)."),
- "C07": e1("DESIGN.md §4 C07", "For 120 generated overlapping-rule policies (every unordered pair of rule shapes over scope x pattern) and 11 named ones, every document their own vocabulary generates (elements x <=2 attributes x witness values x nesting depth 2, ~2.5M documents) must be returned byte for byte modulo forced attributes."),
+ "C07": e1("DESIGN.md §4 C07", "For 120 generated overlapping-rule policies (every unordered pair of rule shapes over scope x pattern) and ~20 named ones (bare-after-rules orders, several bare patterns, space insertion, widened custom schemes), every document their own vocabulary generates (elements x <=2 attributes x witness values x nesting depth 2, ~4M documents) must be returned byte for byte modulo forced attributes."),
  "C10": e1("DESIGN.md §4 C10", "Every sequence of <=3 declarations over a 38-declaration alphabet (incl. an escape alphabet) on four element classes against 42 style rule sets (scope x matcher kind x style attribute admitted or not); output style re-split the way a browser does, each declaration justified on lower(css-decode(value)); exact expected output for escape-free inputs."),
  "C11": e1("DESIGN.md §4 C11", "a/area/link x every attribute list <=3 over 22 href/rel/target/other attributes x all 32 link-option combinations x rel admitted (no pattern / SpaceSeparatedTokens / not) x target admitted or not; requirements judged on the first rel/target as a browser reads duplicates, tokens compared ASCII case-insensitively."),
  "C12": e1("DESIGN.md §4 C12", "Five media elements x every attribute list <=4 over crossorigin forms, iframe x every list <=3 over sandbox token sequences, x crossorigin/sandbox admitted or not x every sandbox subset of size <=2 plus the full set (thorough: all 16384 subsets)."),
@@ -24,13 +24,13 @@ CHECKS = {
  "C19": e1("DESIGN.md §4 C19", "Per exported matcher: all strings up to length 4-6 over its own alphabet plus 11 HTML-significant characters, and all single and double edits of every documented example (82M strings); a match must be accepted by a hand-written recogniser of the documented form, and every documented example must match.",
           "Trusted: the recognisers in internal/checks/c19.go."),
  "C08": ("model_checking", "explicit-state breadth-first search over states of the real token loop (loop locals read through a build overlay + input element stack), transitions = tokens of a well-nested grammar, per-transition oracle", "E2", "DESIGN.md §4 C08",
-         "Reachability closure of the real sanitiser's token-loop state under 14 policies for every well-nested document over a 16-form element grammar with nesting depth <=4 and any length (2.1M states, 23M transitions in quick): text inside a disallowed skip-content element never appears, markup inside it produces no output, text outside appears once and unchanged.",
+         "Reachability closure of the real sanitiser's token-loop state under 19 policies for every well-nested document over a grammar of 18 open/close forms and 20 leaves with nesting depth <=3 (thorough 4) and any length (0.9M states, 21M transitions in quick): text inside a disallowed skip-content element never appears, markup inside it produces no output, text outside appears once and unchanged.",
          "Trusted: the overlay instrumenter (harness/cmd/instrument) locating the token loop and dumping its locals; state equality (same locals + same open-element stack => same future) holds because the loop's future depends on nothing else except the immutable policy. If the loop cannot be located the check degrades to bounded enumeration and says exhaustive:false."),
  "C09": ("model_checking", "explicit-state breadth-first search over states of the real token loop (same search as C08), stack-balance monitor on the re-tokenised output in every state", "E2", "DESIGN.md §4 C09",
          "Same state space as C08; in every reached state the re-tokenised output never closes an element that is not the innermost open one, never has more open elements than the input, and is fully closed whenever the input document is complete.",
          "As C08. Void elements per the HTML list; self-closing tokens are leaves."),
  "C13": ("model_checking", "stateless model checking under a cooperative scheduler with iterative preemption bounding + exhaustive map-iteration-order choices; separate free-running race-detector pass", "E3", "DESIGN.md §4 C13",
-         "All interleavings with <=2 preemptions of two goroutines sanitising on one shared policy (scheduling point before every statement of the package), all map-range orders within 2 deviations from sorted order, alone and combined with a preemption (0.5M executions in quick); every call must return the sequential result and the deep snapshot of the policy and of all package-level variables must not change. The data-race clause is decided by Go's race detector on a free-running build of the same bodies.",
+         "All interleavings with <=2 preemptions of two goroutines sanitising on one shared policy (scheduling point before every statement of the package), all map-range orders within 2 deviations from sorted order, alone and combined with a preemption (0.5M executions in quick); every call must return the sequential result and sanitising must not change later behaviour (deep snapshot of the policy and of all package-level variables; on a difference the used policy is compared with a fresh one on probes; other policies must be unaffected by calls on this one). The data-race clause is decided by Go's race detector on a free-running build of the same bodies.",
          "Trusted: the overlay (scheduling points, map-range rewriting, reflective snapshot); sequentially consistent interleaving at statement granularity; the race detector for unsynchronised accesses (outside the model-checking family, stated in DESIGN.md)."),
  "C14": ("model_checking", "bounded-exhaustive enumeration for absence of panics on all four entry points + step-bounded execution (overlay step counter, cubic budget) of size-parameterised input families", "E5", "DESIGN.md §4 C14",
          "Every byte string <=4 over 22 bytes and every fragment sequence <=2 through all four entry points on an everything-on policy; every default CSS handler x its own vocabulary x separators x terminators x sizes up to 48 components and 35 HTML families up to n=256 executed under a budget of 16*(len+16)^3 instrumented steps. No wall-clock oracle.",
@@ -42,9 +42,9 @@ CHECKS = {
          "For every input of <=2 fragments (core of 3) and 7 policies, the fault-free write sequence is recorded and every single write is failed (transient, permanent, partial) for both writer kinds; the reader is failed at every byte offset with six error values. Error must be returned, no write may follow the failure, accepted bytes must be a prefix of the fault-free output, SanitizeReader must return an empty buffer.",
          "Trusted: the fault-injecting doubles. Faults are injected only through the exported API."),
  "C17": ("model_checking", "explicit-state search over builder-call histories with an abstract rule-set state (reference model) and conformance of every history against the implementation by probe-output vectors", "E6", "DESIGN.md §4 C17",
-         "Every history of <=3 calls over a 49-call alphabet (124k histories, 11k abstract states) is executed on a fresh real policy; all histories reaching one abstract state must agree byte for byte on 46 probe documents. Instances: in a pristine process, after each call on a scratch instance a fresh and an earlier instance must be unaffected (3 bases), plus interleaved construction of two instances.",
+         "Every history of <=3 calls over a 66-call alphabet (every upper-case spelling has its lower-case twin; ~290k histories, 13k abstract states) is executed on a fresh real policy; all histories reaching one abstract state must agree byte for byte on 46 probe documents; an additive call never removes a kept tag or attribute. Instances: in a pristine process, after each call on a scratch instance a fresh and an earlier instance must be unaffected (3 bases), plus interleaved construction of two instances.",
          "Trusted: the reference model (internal/spec ViewOf + Canon); probe documents distinguish the behaviours of interest."),
- "C20": e1("DESIGN.md §4 C20", "Fragment sequences (<=3 over F, <=4 core), URL strings in three positions, link attribute lists <=3, against every policy of the family inside the property's class plus Strict and UGC (with the del/ins proviso): Sanitize(Sanitize(x)) == Sanitize(x). One known finding (rel/target order) is listed in known_findings.jsonl."),
+ "C20": e1("DESIGN.md §4 C20", "Fragment sequences (<=3 over F, <=4 core, <=3 over core + exotic syntax), URL strings in three positions, link attribute lists <=3, against every policy of the family inside the property's class plus Strict and UGC (with the del/ins proviso): Sanitize(Sanitize(x)) == Sanitize(x). One known finding (rel/target order) is listed in known_findings.jsonl."),
 }
 
 built = [i for i in ids if i in CHECKS and os.environ.get("ONLY", i) ]
